@@ -1634,6 +1634,7 @@ func (c *DnsController) __updateDnsCacheDeadline(cacheKey string, host string, d
 	} else {
 		fqdn = dnsmessage.CanonicalName(host)
 	}
+	host = strings.ToLower(host)
 	// Bypass pure IP.
 	if _, err = netip.ParseAddr(host); err == nil {
 		return nil
